@@ -159,6 +159,7 @@ struct State
     std::map<std::string, DecSlot> decs;
     std::map<std::string, Status> stats;
     std::map<std::string, std::unique_ptr<Payload>> pls;
+    std::map<std::string, std::unique_ptr<TECMP::Payload>> tpls;
 };
 
 static std::vector<std::shared_ptr<Packet>> decodeBuf(DecSlot& d, const Bytes& b)
@@ -244,6 +245,7 @@ static std::string stepLine(State& s, const std::vector<std::string>& w)
         if (w[2] == "stream" && w.size() == 4) { slot.enc.setStreamId(static_cast<uint8_t>(nat(w[3]))); return "ok"; }
         if (w[2] == "restart" && w.size() == 3) { slot.enc.restart(); return "ok"; }
         if (w[2] == "seq" && w.size() == 3) return "seq " + std::to_string(slot.enc.getSequenceCounter());
+        if (w[2] == "ids" && w.size() == 3) return "ids " + std::to_string(slot.enc.getDeviceId()) + " " + std::to_string(unsigned(slot.enc.getStreamId()));
         if ((w[2] == "encode" || w[2] == "encodep" || w[2] == "encode1") && w.size() >= 5)
         {
             DataContext ctx{static_cast<size_t>(nat(w[3])), static_cast<size_t>(nat(w[4]))};
